@@ -615,6 +615,9 @@ def rows_off_only_by_lp_tolerance(r):
     return worst is not None, worst
 
 
+OBS_OUTSIDE = "history-contains-observation-outside-observation-set"
+
+
 def check_runs(case, res, pc, init):
     """conformance of real run_on executions to the episode convention of the model (position space);
     init = the controller's initial node distribution as exact doubles"""
@@ -624,6 +627,11 @@ def check_runs(case, res, pc, init):
     runs = res.get("runs")
     if isinstance(runs, dict):
         return "run_on raised: " + runs.get("error", "")
+    for tr in runs:
+        for st in tr["steps"][:-1]:
+            if not isinstance(st["o"], int) or isinstance(st["o"], bool) or not (0 <= st["o"] < pc["nO"]):
+                # every executed step, the episode-ending one included, carries an observation of the POMDP
+                return OBS_OUTSIDE + ": a step of the executed history carries %r instead of an observation" % (st["o"],)
     for tr in runs:
         steps = tr["steps"]
         if not steps or steps[-1]["a"] is not None:
@@ -753,7 +761,11 @@ def run(ctx):
                        {"case": case, "clause": "the same (deterministic) controller gives two different probabilities to a history"}, found=True)
             why = check_runs(case, res, pc, [vlib.fjson(float(vlib.frac(x))) for x in fc["init"]])
             nruns += 1
-            if why:
+            if why and why.startswith(OBS_OUTSIDE):
+                report("C09:controller:" + OBS_OUTSIDE, {"case": case, "why": why, "runs": res.get("runs"),
+                       "clause": "executing the controller produces action/observation histories with the probabilities the controller and the POMDP define: "
+                                 "the observation of every executed step (also the one entering an absorbing state) is drawn from O[a, next state]"}, found=True)
+            elif why:
                 report("C09:run_on:episode-convention", {"case": case, "clause": why, "runs": res.get("runs")}, found=True)
             if not all(pc["absorbing"]):
                 distinct.add(vlib.structural_hash([gpc, fc]))
@@ -801,7 +813,10 @@ def run(ctx):
             # executing the RETURNED controller object obeys the episode convention too
             why = check_runs(case, res, pc, r["init"])
             nruns += 1
-            if why:
+            if why and why.startswith(OBS_OUTSIDE):
+                report("C09:controller:" + OBS_OUTSIDE, {"case": case, "why": why, "runs": res.get("runs"), "learner": learner,
+                       "clause": "the observation of every executed step (also the one entering an absorbing state) is drawn from O[a, next state]"}, found=True)
+            elif why:
                 report("C09:run_on:episode-convention", {"case": case, "clause": why, "runs": res.get("runs"), "learner": learner}, found=True)
             if learner == "bpi":
                 evs = res["evals"]
